@@ -2,10 +2,23 @@
 
 package pathdb
 
+import "fmt"
+
 // VerifChainsimSetMaxDiffLayers sets the package-level diff-layer cap (a tuning
 // variable of the tree under test) and returns the previous value.
 func VerifChainsimSetMaxDiffLayers(n int) int {
 	old := maxDiffLayers
 	maxDiffLayers = n
 	return old
+}
+
+// VerifChainsimLayers describes the layer tree (debugging / classification aid).
+func (db *Database) VerifChainsimLayers() (desc string) {
+	db.tree.lock.RLock()
+	defer db.tree.lock.RUnlock()
+	desc = fmt.Sprintf("base=%x id=%d waitSync=%v layers=%d:", db.tree.base.rootHash().Bytes()[:4], db.tree.base.stateID(), db.waitSync, len(db.tree.layers))
+	for r := range db.tree.layers {
+		desc += fmt.Sprintf(" %x", r.Bytes()[:4])
+	}
+	return desc
 }
